@@ -463,6 +463,19 @@ def f26():
     return (not bad) or bool(sim.has_crashed), f"NaN recorded in rebuild_demand / final_demand_unmet: {bad}; crashed flag: {sim.has_crashed}"
 
 
+@trigger("F27", ["C16"])
+def f27():
+    """the saved parameters report the inventory restoration time the model was built with, for a step length of 2"""
+    tb = base_table()
+    cfg = base_cfg(dt=2, restoration_tau=30, alpha_tau=365)
+    cfg["class"] = "psi"
+    cfg.setdefault("psi", 0.8)
+    sim = scen.build_sim(mk_sc(tb, cfg, [], T=4))
+    got = sim.params_dict.get("inventory_restoration_tau")
+    ok = got is not None and all(abs(float(g) - 30.0) < 1e-9 for g in got)
+    return ok, f"params_dict['inventory_restoration_tau'] = {got}"
+
+
 def run_all(props=None, only=None):
     res = {}
     for fid, t in TRIGGERS.items():
